@@ -93,6 +93,30 @@ PoolStep(ev) ==
                 \* follow the implementation's choice so that the LIFO model stays comparable
                 /\ pl' = IF ev.cell >= 0 THEN [pl EXCEPT !.free = SelectSeq(pl.free, LAMBDA c : c # ev.cell)] ELSE pl
                 /\ JudgePool(ev, errs, r.cell)
+        \* create() of an element whose constructor creates another element in the same pool (cells <<outer, inner>>): two allocations
+        [] ev.e = "PAlloc2" ->
+             LET free == pcap - Cardinality(plive)
+                 cs == ev.cells
+                 got == {cs[i] : i \in {j \in 1..2 : cs[j] >= 0}}
+                 errs == (IF free >= 1 /\ cs[1] = -1 THEN {"null_before_capacity"} ELSE {})
+                         \cup (IF free >= 2 /\ cs[2] = -1 THEN {"null_before_capacity"} ELSE {})
+                         \cup (IF (free = 0 /\ cs[1] # -1) \/ (free <= 1 /\ cs[2] # -1) THEN {"allocated_beyond_capacity"} ELSE {})
+                         \cup (IF \E c \in got : c < 0 \/ c >= pcap THEN {"cell_out_of_range"} ELSE {})
+                         \cup (IF got \cap plive # {} \/ (cs[1] >= 0 /\ cs[1] = cs[2]) THEN {"cell_handed_out_twice"} ELSE {})
+             IN /\ plive' = plive \cup got
+                /\ pl' = [pl EXCEPT !.free = SelectSeq(pl.free, LAMBDA c : c \notin got)]
+                /\ JudgePool(ev @@ [al |-> 0, cell |-> -2], errs, -2)
+        \* create() of an element whose constructor destroys a live element of the same pool: one allocation, then one release
+        [] ev.e = "PAllocF" ->
+             LET free == pcap - Cardinality(plive)
+                 errs == IF free = 0 THEN (IF ev.cell # -1 THEN {"allocated_beyond_capacity"} ELSE {})
+                         ELSE (IF ev.cell = -1 THEN {"null_before_capacity"}
+                               ELSE IF ev.cell < 0 \/ ev.cell >= pcap THEN {"cell_out_of_range"}
+                               ELSE IF ev.cell \in plive THEN {"cell_handed_out_twice"} ELSE {})
+                 p1 == IF ev.cell >= 0 THEN [pl EXCEPT !.free = SelectSeq(pl.free, LAMBDA c : c # ev.cell)] ELSE pl
+             IN /\ plive' = (IF ev.cell >= 0 THEN plive \cup {ev.cell} ELSE plive) \ {ev.freed}
+                /\ pl' = IF ev.freed >= 0 THEN PoolFree(p1, ev.freed) ELSE p1
+                /\ JudgePool(ev @@ [al |-> 0], errs, -2)
         [] ev.e = "PFree" ->
              /\ plive' = plive \ {ev.cell} /\ pl' = PoolFree(pl, ev.cell)
              /\ JudgePool(ev @@ [al |-> 0], {}, -2)
